@@ -97,8 +97,18 @@ Definition pad_count (size divisor : Z) : Z :=
   let r := size mod divisor in if r =? 0 then 0 else divisor - r.
 
 Definition zeros (n : Z) : list Z := repeat 0 (Z.to_nat n).
-Definition take (n : Z) (d : list Z) : list Z := firstn (Z.to_nat n) d.
-Definition drop (n : Z) (d : list Z) : list Z := skipn (Z.to_nat n) d.
+(* fp.read(n) / skipping n bytes: recursion on the data, so that an absurd count read from a
+   corrupt file costs nothing (equal to firstn/skipn (Z.to_nat n): Proofs.take_firstn, drop_skipn) *)
+Fixpoint take (n : Z) (d : list Z) : list Z :=
+  match d with
+  | [] => []
+  | x :: r => if n <=? 0 then [] else x :: take (n - 1) r
+  end.
+Fixpoint drop (n : Z) (d : list Z) : list Z :=
+  match d with
+  | [] => []
+  | x :: r => if n <=? 0 then d else drop (n - 1) r
+  end.
 
 (* ------------------------------------------------------------------ struct *)
 Definition pack_I (n : Z) : res (list Z) :=
@@ -207,6 +217,11 @@ Definition set_name (enc_mac : list Z -> option (list Z)) (value : list Z) (r : 
     Ok {| rec_name := match enc_mac value with Some _ => value | None => [63] end;
           rec_luni := Some value |}
   else Err AssertErr.
+
+(* Group.new(name): LayerRecord(name=name) and set_data(UNICODE_LAYER_NAME, name) - no '?' fallback.
+   PixelLayer.frompil(.., layer_name): layer_record.name = layer_name - no fallback, no luni block. *)
+Definition group_new_rec (name : list Z) : lrec := {| rec_name := name; rec_luni := Some name |}.
+Definition frompil_rec (name : list Z) : lrec := {| rec_name := name; rec_luni := None |}.
 
 Definition tag_8BIM : list Z := [56; 66; 73; 77].
 Definition tag_luni : list Z := [108; 117; 110; 105].
